@@ -72,11 +72,55 @@ package types
 // From a transaction to the message that is applied (used by core.(*StateProcessor).ApplyTransaction)
 // ---------------------------------------------------------------------------------------------------------------
 
-// The caches (atomic.Value) are outside the model: these two only fill their cache. ASSUMED (`nobody`).
-//@ func Sender props C17
-//@ nobody
-//@ modifies tx.from
+// ---- the per-transaction sender cache (tx.from, an atomic.Value holding a sigCache{signer, from}) -------------------------
+// "A transaction's sender is the holder of the key that signed exactly its fields for this network": every answer of the
+// caching wrapper Sender must be a recovery made by an EQUAL signer (same network) for THIS transaction — a failed recovery
+// must never become a cached answer.
 
+// Recovery as a function of (signer, transaction): signers are immutable values and a transaction's signed fields are never
+// written after construction, so repeated recoveries agree. (What a YouSigner's recovery accepts is verified above.)
+//@ spec func c17Recoverable(s: Signer, tx: *Transaction) bool
+//@ spec func c17SenderOf(s: Signer, tx: *Transaction) common.Address
+
+//@ func (Signer).Sender props C17
+//@ trusted
+//@ modifies nothing
+//@ ensures (result1 == nil) == c17Recoverable(recv, tx)
+//@ ensures result1 == nil ==> result0 == c17SenderOf(recv, tx)
+
+// equal signers (YouSigner: same network id, verified) recover the same senders
+//@ func (Signer).Equal props C17
+//@ trusted
+//@ pure
+//@ opt noalloc
+//@ ensures result ==> (forall t: *Transaction :: { c17Recoverable(recv, t) } c17Recoverable(recv, t) == c17Recoverable(arg0, t)) &&
+//@     (forall t: *Transaction :: { c17SenderOf(recv, t) } c17SenderOf(recv, t) == c17SenderOf(arg0, t))
+
+// what tx.from holds (nil = empty), per transaction; set at the Store call in Sender
+//@ ghost var c17Cached: map[*types.Transaction]int
+
+// the cache invariant: a non-empty cell holds a SUCCESSFUL recovery of this transaction by the recorded signer
+//@ spec func c17CacheOK(c: int, tx: *Transaction) bool =
+//@     c != nil ==> hastype(c, sigCache) && c17Recoverable(unbox(c, sigCache).signer, tx) &&
+//@                  unbox(c, sigCache).from == c17SenderOf(unbox(c, sigCache).signer, tx)
+
+// nothing but Sender touches the cache cell
+//@ owns Transaction.from by Sender props C17
+
+//@ func Sender props C17
+//@ requires tx != nil && signer != nil
+//@ assume [invariant] c17CacheOK(c17Cached[tx], tx)                                                 // established by Sender itself ([cache-invariant-kept]) for a cell only Sender writes (owns)
+//@ assume after call (*sync/atomic.Value).Load: [cache-cell-is-ghost] ret == c17Cached[tx]        // the ghost mirrors the cell: every Store below updates it, nobody else stores
+//@ ghost after call (*sync/atomic.Value).Store: c17Cached := store(c17Cached, tx, a1)
+//@ assert before call (*sync/atomic.Value).Store: [cache-only-successful-recoveries] err == nil &&
+//@     hastype(a1, sigCache) && unbox(a1, sigCache).from == addr && unbox(a1, sigCache).signer == signer
+//@ modifies tx.from, c17Cached
+//@ ensures [answer-is-a-recovery-by-an-equal-signer] result1 == nil ==> c17Recoverable(signer, tx) && result0 == c17SenderOf(signer, tx)
+//@ ensures [error-returns-zero] result1 != nil ==> result0 == zero(common.Address) && !c17Recoverable(signer, tx)
+//@ ensures [cache-invariant-kept] c17CacheOK(c17Cached[tx], tx)
+//@ ensures [other-caches-untouched] forall t: *Transaction :: t != tx ==> c17Cached[t] == old(c17Cached[t])
+
+// The hash cache (atomic.Value) is outside the model: Hash only fills it. ASSUMED (`nobody`).
 //@ func (*Transaction).Hash props C17
 //@ nobody
 //@ modifies tx.hash
@@ -102,8 +146,11 @@ package types
 
 // AsMessage copies the transaction's fields; the price is a fresh copy.
 //@ func (*Transaction).AsMessage props C17
-//@ requires tx != nil && tx.data.Price != nil
-//@ modifies tx.from, tx.hash
+//@ requires tx != nil && tx.data.Price != nil && signer != nil
+//@ modifies tx.from, tx.hash, c17Cached
+//@ ensures [authentic-sender] result1 == nil ==> c17Recoverable(signer, tx) && result0.from == c17SenderOf(signer, tx)
+//@ ensures [error-has-no-sender] result1 != nil ==> result0.from == zero(common.Address) && !c17Recoverable(signer, tx)
+//@ ensures [cache-invariant-kept] c17CacheOK(c17Cached[tx], tx)
 //@ ensures [fields] result0.gasLimit == tx.data.GasLimit && result0.nonce == tx.data.AccountNonce && result0.checkNonce &&
 //@     result0.to == tx.data.Recipient && result0.amount == tx.data.Amount
 //@ ensures [price] result0.gasPrice != nil && fresh(result0.gasPrice) && big(result0.gasPrice) == big(tx.data.Price)
@@ -119,3 +166,41 @@ package types
 //@ requires len(sig) == 65 && c17SignerOK(s)
 //@ ensures [zero-network-refused] big(s.networkId) == 0 ==> err == ErrInvalidNetworkId
 //@ ensures [v-encodes-network] err == nil ==> V != nil && big(V) == wrap8(old(sig[64]) + 35) + 2 * old(big(s.networkId))
+
+// ---- periphery: the message handed to the state transition is the record AsMessage built (one-line getters, verified;
+// ---- core.ApplyTransaction's `assume types-message-getters` is the interface-dispatch form of these clauses)
+//@ func (Message).From props C17
+//@ panics none
+//@ pure
+//@ opt noalloc
+//@ ensures result == m.from
+//@ func (Message).Gas props C17
+//@ panics none
+//@ pure
+//@ opt noalloc
+//@ ensures result == m.gasLimit
+//@ func (Message).GasPrice props C17
+//@ panics none
+//@ pure
+//@ opt noalloc
+//@ ensures result == m.gasPrice
+//@ func (Message).Nonce props C17
+//@ panics none
+//@ pure
+//@ opt noalloc
+//@ ensures result == m.nonce
+//@ func (Message).CheckNonce props C17
+//@ panics none
+//@ pure
+//@ opt noalloc
+//@ ensures result == m.checkNonce
+//@ func (Message).Value props C17
+//@ panics none
+//@ pure
+//@ opt noalloc
+//@ ensures result == m.amount
+//@ func (Message).To props C17
+//@ panics none
+//@ pure
+//@ opt noalloc
+//@ ensures result == m.to
